@@ -10,7 +10,9 @@ From Fiddle Require Import PyBase PySlice Sig ArgStore PyCall Heap Traverse Buil
 
 Record case := mkcase {
   c_env : sigenv; c_heap : heap; c_root : ref;
-  c_emitted : option program       (* None: the generator raised *)
+  c_emitted : option program;      (* None: the generator raised *)
+  c_default_options : bool         (* false: max_expression_complexity was set, sub-expressions over the
+                                      threshold become variables too *)
 }.
 
 Definition rebuilds (e : sigenv) (h : heap) (r : ref) (p : program) : bool :=
@@ -25,8 +27,11 @@ Definition check_case (c : case) : bool :=
   | Some p, Some g =>
       rebuilds e (c_heap c) (c_root c) p
       && rebuilds e (c_heap c) (c_root c) g
-      && Nat.eqb (length (filter (fun x => match x with EConst _ => false | _ => true end) (p_body p)))
-                 (length (p_body g))
+      && (if c_default_options c
+          then Nat.eqb (length (filter (fun x => match x with EConst _ => false | _ => true end) (p_body p)))
+                       (length (p_body g))
+          else Nat.leb (length (p_body g))
+                       (length (filter (fun x => match x with EConst _ => false | _ => true end) (p_body p))))
   | Some p, None => rebuilds e (c_heap c) (c_root c) p   (* outside the model generator's fragment *)
   | None, _ => true     (* a rejection is always allowed by the property *)
   end.
